@@ -35,14 +35,19 @@ func TestVerifReplayC08Real(t *testing.T) {
 	arr := int(sc.Args[0])
 	named, _ := sc.Inputs["task-uses-a-named-context"].(bool)
 	dir := t.TempDir()
-	taskDir, s0Dir := filepath.Join(dir, "task-dir"), filepath.Join(dir, "s0-dir")
-	os.MkdirAll(taskDir, 0o755)
-	os.MkdirAll(s0Dir, 0o755)
+	// the task's dir is a template over K; one directory per value of the domain, and s1's own
+	for _, v := range []string{"p", "q", "r"} {
+		os.MkdirAll(filepath.Join(dir, v+"-dir"), 0o755)
+	}
+	s1Dir := filepath.Join(dir, "s1-dir")
+	os.MkdirAll(s1Dir, 0o755)
 	trace := filepath.Join(dir, "trace")
 	vt, wt, v0, v1, w0 := str("task.env.K"), str("task.var.K"), str("s0.env.K"), str("s1.env.K"), str("s0.var.K")
 	// one file per command: stages run in parallel and appends to a shared file would interleave
 	cmd := fmt.Sprintf(`echo "K=$K A0=${A0-unset} A1=${A1-unset} CTX=${CTX_ONLY-unset} varK={{.K}} dir=$(pwd)" > %s.$(date +%%s%%N)`, trace)
-	def := &taskDefinition{Name: "tk", Command: []string{cmd}, Dir: taskDir,
+	taskDir := filepath.Join(dir, wt+"-dir")
+	s0Dir := filepath.Join(dir, w0+"-dir")
+	def := &taskDefinition{Name: "tk", Command: []string{cmd}, Dir: dir + "/{{.K}}-dir",
 		Env: map[string]string{"K": vt}, Variables: map[string]string{"K": wt}}
 	contexts := map[string]*runner.ExecutionContext{}
 	ctxSeen := "unset"
@@ -63,8 +68,8 @@ func TestVerifReplayC08Real(t *testing.T) {
 	cfg.Tasks["tk"] = tk
 	deps := [][][]string{{nil, nil, nil}, {nil, {"s0"}, {"s1"}}, {{"s1"}, {"s2"}, nil}}[arr]
 	sds := []*stageDefinition{
-		{Name: "s0", Task: "tk", DependsOn: deps[0], Dir: s0Dir, Env: map[string]string{"K": v0, "A0": "only-s0"}, Variables: map[string]string{"K": w0}},
-		{Name: "s1", Task: "tk", DependsOn: deps[1], Env: map[string]string{"K": v1, "A1": "only-s1"}},
+		{Name: "s0", Task: "tk", DependsOn: deps[0], Env: map[string]string{"K": v0, "A0": "only-s0"}, Variables: map[string]string{"K": w0}},
+		{Name: "s1", Task: "tk", DependsOn: deps[1], Dir: s1Dir, Env: map[string]string{"K": v1, "A1": "only-s1"}},
 		{Name: "s2", Task: "tk", DependsOn: deps[2]},
 	}
 	g, _ := scheduler.NewExecutionGraph()
@@ -86,7 +91,7 @@ func TestVerifReplayC08Real(t *testing.T) {
 	}
 	want := []string{
 		line(v0, "only-s0", "unset", w0, s0Dir), // s0
-		line(v1, "unset", "only-s1", wt, taskDir), // s1
+		line(v1, "unset", "only-s1", wt, s1Dir), // s1
 		line(vt, "unset", "unset", wt, taskDir), // s2
 		line(vt, "unset", "unset", wt, taskDir), // the other pipeline's stage
 		line(vt, "unset", "unset", wt, taskDir), // the direct run
